@@ -135,12 +135,26 @@ def Builder.element (b : Builder) (pfx loc : StrSpan) : Builder :=
 def declDisplayName (pfx : Str) : Str :=
   if pfx.isEmpty then ['x', 'm', 'l', 'n', 's'] else ['x', 'm', 'l', 'n', 's', ':'] ++ pfx
 
+/-- The two `let reserved = …` of `DocumentBuilder::prefix` (on the written prefix and the DECODED
+    URI): the prefix `xmlns` declared, another prefix than `xml` (the default namespace included)
+    bound to the XML namespace name, anything bound to the xmlns namespace name; or a non-empty
+    prefix other than `xml` bound to the empty URI (`xmlns:p=""`).  Rebinding `xml` to another URI
+    (the empty one included) is NOT among them. -/
+def reservedDecl (pfx uri : Str) : Bool :=
+  (pfx == ['x', 'm', 'l', 'n', 's'] || (pfx != ['x', 'm', 'l'] && uri == xmlNamespaceUri) ||
+    uri == xmlnsNamespaceUri) ||
+  (!pfx.isEmpty && pfx != ['x', 'm', 'l'] && uri.isEmpty)
+
 /-- `DocumentBuilder::prefix`: the URI is decoded like any attribute value (errors propagate),
-    then the two registrations happen, then the `unwrap`, then the "declared twice" test. -/
+    then the reserved / undeclaration test on the strings (`InvalidNamespaceDeclaration`, nothing
+    interned yet), then the two registrations, then the `unwrap`, then the "declared twice" test. -/
 def Builder.prefix (b : Builder) (pfx : Str) (uri : StrSpan) (nameSpan : Span) : Step Builder :=
   match parseContentGo true uri.start 0 uri.text with
   | .error e => .err (ParseErr.ofContent e) b.env
   | .ok u =>
+    if reservedDecl pfx u then
+      .err (.invalidNamespaceDeclaration (declDisplayName pfx) nameSpan) b.env
+    else
     let r1 := b.env.internPrefix pfx
     let r2 := r1.1.internNamespace u
     match b.eb with
@@ -334,16 +348,20 @@ def Builder.closeElement (b : Builder) (pfx loc : StrSpan) (endSpan : StrSpan) :
           b.curPath endSpan
     | _ => ({ b with env := env1 } : Builder).leave b.curPath endSpan
 
-/-- `DocumentBuilder::comment` + span. -/
+/-- `content.replace("\r\n", "\n").replace('\r', "\n")`: line-end normalisation, as written in
+    `cdata_text`, `comment` and `processing_instruction`. -/
+def normalizeLineEnds (s : Str) : Str := replaceCr (replaceCrLf s)
+
+/-- `DocumentBuilder::comment` (line ends normalised) + span (of the text as written). -/
 def Builder.comment (b : Builder) (t : StrSpan) : Builder :=
-  let r := b.addLeaf (.comment t.text)
+  let r := b.addLeaf (.comment (normalizeLineEnds t.text))
   { r.1 with spans := r.1.spans.add ⟨r.2, .comment⟩ t.span }
 
 /-- `DocumentBuilder::processing_instruction` + spans (`xot.add_name(target)` registers the
-    target as a name in no namespace). -/
+    target as a name in no namespace; line ends of the content are normalised). -/
 def Builder.processingInstruction (b : Builder) (target : StrSpan) (content : Option StrSpan) : Builder :=
   let rn := b.env.internName target.text Env.noNamespace
-  let r := ({ b with env := rn.1 } : Builder).addLeaf (.pi rn.2 (content.map (fun c => c.text)))
+  let r := ({ b with env := rn.1 } : Builder).addLeaf (.pi rn.2 (content.map (fun c => normalizeLineEnds c.text)))
   let spans1 := r.1.spans.add ⟨r.2, .piTarget⟩ target.span
   let spans2 := match content with
     | some c => spans1.add ⟨r.2, .piContent⟩ c.span
@@ -367,7 +385,10 @@ def Builder.step (b : Builder) : Token → Step Builder
     | .ok b1 => b1.closeImmediate sp
     | r => r
   | .comment t _ => .ok (b.comment t)
-  | .pi target content _ => .ok (b.processingInstruction target content)
+  | .pi target content _ =>
+    -- `target.as_str().eq_ignore_ascii_case("xml")`, before the builder is called
+    if isReservedPiTarget target.text then .err (.invalidTarget target.text target.span) b.env
+    else .ok (b.processingInstruction target content)
   | .declaration version _ _ _ =>
     if version.text != ['1', '.', '0'] then .err (.unsupportedVersion version.text version.span) b.env
     else .ok b
